@@ -91,6 +91,15 @@ CLAIMED = {
              note=TB + 'Two defects found by refuted statements were repaired in /repo (b807027 foreign control frames, 7b28730 stale receive session); the statements are now proved positively.  Sizes outside 9..223 and the '
                   'per-CTS limit byte of the RTS (ignored by the library) are outside the property.',
              design='6 C10', technique='Coq proof over executable model + extracted-model/implementation correspondence'),
+ 'C03': dict(text='Generic theorems about an abstract network of claimants (library instances with several devices, foreign ISO 11783-5 nodes, bus without loop-back, multiset delivery = every interleaving): under node hypotheses R1..R5 '
+                  'the invariant pairwise_cover holds in every reachable world, addresses are unique at quiescence (quiescent_unique) and a device yields only to a lower NAME (lower_name_wins).  Library theorems on the node model: '
+                  'HandleISOAddressClaim satisfies R1..R5 (arbitration), the address search visits every address once before the null address (exhausted_run), the transmitted source is the reported one, every own-address change raises '
+                  'the address-changed indication; library_node_hyps instantiates the generic theorems for networks of library and reference nodes.  Tied to the C++ by correspondence of a multi-node harness (h_net: several '
+                  'tNMEA2000 instances + reference nodes) with the network model, plus exhaustive schedule exploration of the model network for 2..4 participants.',
+             note=TB + 'Partial: termination of arbitration (converges_stmt) is stated but NOT proved - covered only by exhaustive exploration of the model network (a search, not a proof); the link from ParseMessages to handle_claim is by '
+                  'correspondence.  Open known finding commanded-address:sibling-collision (D-04; machine-checked C03_commanded_collision_refuted), so library_quiescent_unique is proved for commanded addresses that avoid sibling '
+                  'devices.  One defect repaired in /repo (7691b01: SetMode assigned addresses above 251).  Hypothesis: distinct NAMEs.',
+             design='6 C03', technique='Coq invariant proof (generic network + instantiation with the node model) + extracted-model/implementation correspondence on a multi-node harness'),
  'C04': dict(text='Theorems about one step of the node from an ARBITRARY state, for every group-function reaction satisfying a send-side contract: a listen-only node never calls the driver; a node that is not open calls it '
                   'only in the Open() call that completes after the 200 ms settle delay (settle_delay from every cold node, both scheduler builds); every step refines an abstract machine in which a frame is handed to SendFrame '
                   'only in a state where it is entitled (node open, not listen-only, source = current address of a device whose claim is not pending and <= 251, or PGN 60928), everything else the driver sees is a flush of '
